@@ -64,6 +64,34 @@ fn check_api(st: &mut Stats, text: &str, ordering: &[(String, usize)], origin: &
             if let Err(m) = check_ordered_reduced(&ev.result) {
                 st.violate("c11.listed-order", "C11:api:not-ordered-by-id".into(), format!("`{}` ordering {:?}: {} in {}", text, ordering, m, short(&ev.result)), case());
             }
+            // the same two readings in ONE shared environment (default order first): the table is
+            // printed by asking, for every node of the answer, which column its symbol belongs to —
+            // a symbol is its id, whatever name an earlier formula gave that id
+            if st.evals % 4 == 0 {
+                let syms2: Vec<NamedSymbol> = ordering.iter().map(|(n, id)| NamedSymbol { name: Rc::new(n.clone()), id: *id }).collect();
+                util::budget(STEP_CAP, fp_cap);
+                let shared = util::guarded(|| -> std::io::Result<Option<String>> {
+                    let env = Rc::new(rsbdd::bdd::BDDEnv::<NamedSymbol>::new());
+                    let first = rsbdd::parser::ParsedFormula::new_with_env(Rc::clone(&env), &mut std::io::BufReader::new(text.as_bytes()), None)?;
+                    let _ = first.eval();
+                    let second = rsbdd::parser::ParsedFormula::new_with_env(Rc::clone(&env), &mut std::io::BufReader::new(text.as_bytes()), Some(syms2))?;
+                    let d = second.eval();
+                    for l in labels_of(&d) {
+                        let Some(col) = second.free_vars.iter().position(|v| v.id == l.id) else { continue };
+                        let got = second.to_free_index(&l);
+                        if got != col {
+                            return Ok(Some(format!("a node of the answer carries the symbol {}#{}; the variable with id {} is column {} ({}) of the table, to_free_index says {}", l.name, l.id, l.id, col, second.free_vars[col].name, got)));
+                        }
+                    }
+                    Ok(None)
+                });
+                st.bump("shared_environment_readings");
+                match shared {
+                    Ok(Ok(Some(m))) => st.violate("c11.meaning", "C11:api:column-of-a-node-in-a-shared-environment".into(), format!("`{}` read under the default order and then under {:?} in ONE environment: {}", text, ordering, m), case()),
+                    Err(Caught::Budget(_)) | Ok(_) => {}
+                    Err(c) => st.violate("c11.panic", format!("C11:api:shared-env:{}", c.signature()), format!("`{}` ordering {:?}: {:?}", text, ordering, c), case()),
+                }
+            }
             let free = ast.free_names();
             let identity = ordering.iter().zip(names.iter()).all(|((n, _), m)| n == m) && ordering.windows(2).all(|w| w[0].1 < w[1].1);
             if free.len() >= 3 && !identity {
@@ -182,8 +210,8 @@ fn cli_case(ctx: &Ctx, st: &mut Stats, text: &str, ordering: Option<String>, tag
         return;
     }
     // listed variables are ordered as in the file (observable in the header and in the exported order)
-    let listed: Vec<String> = ordering.as_deref().and_then(ordering_names).unwrap_or_default();
-    if !respects_order(&table.header, &listed) || !respects_order(&parsed.exported, &listed) {
+    let listed: Vec<String> = ordering.as_deref().and_then(super::clitab::ordering_tokens).unwrap_or_default();
+    if !super::clitab::respects_some_reading(&table.header, &listed) || !super::clitab::respects_some_reading(&parsed.exported, &listed) {
         st.violate("c11.cli", "C11:cli:listed-variables-not-in-file-order".into(), format!("{}: file lists {:?}; header {:?}; exported order {:?}", inv.describe(), listed, table.header, parsed.exported), case());
         return;
     }
